@@ -100,6 +100,7 @@ func constsWithPolarity(v ssa.Value, fn *ssa.Function) []constWhen {
 }
 
 func checkC13(p *Prog, r *Report) {
+	ruleStatusFileOnly(p, r)
 	ruleScannerErr(p, r, "R13.11", map[string]bool{"doapprove": true, "status": true, "missing-approve": true, "main": true, "device": true, "errlog": true})
 	r.rule("R13.1", "Writer/reader agreement on status constants, derived from the code of both sides: the constant status.SetApprove stores for failed=false is a case of missing-approve's switch on Approve.Result whose branch takes Approve.Policy as the device's policy, and the constant for failed=true is not; the constant SetCompare stores for changed=false is a reader case taking Compare.Policy, the constant for changed=true is a reader case that clears the device policy (device is listed); SetCompare's sticky test compares with the very constant it writes for changed=true; the reader consults the compare slot only when Compare.Time is later than the accepted approve time.")
 	r.rule("R13.3", "status.Read cannot abort: it contains no panic, no call of errlog.Abort/os.Exit/log.Fatal and ignores read/decode errors, so an unreadable status decodes to the zero value; for the zero value the reader's device policy is the empty string, which is listed.")
@@ -1230,4 +1231,50 @@ func ruleFailedApproveKeepsHistoryConsistent(p *Prog, r *Report) {
 	}
 	r.add("R13.10", "failed-approve-resets-older-compare|status.SetApprove", p.pos(fn.Pos()), "on the failure path the compare slot is reset when it is older than the overwritten successful approve", reset && timeCmp,
 		"after approve OK p2 and approve FAILED p3 an older compare UPTODATE p1 decides: with p3's code equal to p1's the device is omitted although it carries p2's code")
+}
+
+// ruleStatusFileOnly: R13.12.
+func ruleStatusFileOnly(p *Prog, r *Report) {
+	r.rule("R13.12", "The status of a device is one file: every file that package status reads (os.ReadFile, os.Open, os.OpenFile) is <basedir>/status/<device> — the path is built from the constant \"status\" and no other string constant; what it writes is that file, or a temporary name in the same directory that is renamed onto it in the same function (atomic replace). A second copy that is read back (backup) can be older than the latest observation; a reader that falls back to it resurrects a superseded verdict.")
+	consts := func(v ssa.Value) []string {
+		var out []string
+		for _, s := range pathConstants(v, 0, map[ssa.Value]bool{}) {
+			if s != "" {
+				out = append(out, s)
+			}
+		}
+		sort.Strings(out)
+		return uniqStrings(out)
+	}
+	isStatus := func(c []string) bool { return len(c) == 1 && c[0] == "status" }
+	n := 0
+	for _, fn := range allModFuncs(p) {
+		if pkgOfFunc(fn) != "status" {
+			continue
+		}
+		// temporary names renamed onto the status file
+		renamed := map[string]bool{}
+		for _, cs := range callsOf(fn) {
+			if cs.calleeName() == "os.Rename" && isStatus(consts(cs.In.Common().Args[1])) {
+				renamed[strings.Join(consts(cs.In.Common().Args[0]), "|")] = true
+			}
+		}
+		for _, cs := range callsOf(fn) {
+			name := cs.calleeName()
+			switch name {
+			case "os.ReadFile", "os.Open", "os.OpenFile", "os.WriteFile", "os.Create", "os.Rename", "os.Remove":
+			default:
+				continue
+			}
+			n++
+			c := consts(cs.In.Common().Args[0])
+			ok := isStatus(c)
+			if !ok && (name == "os.WriteFile" || name == "os.Create" || name == "os.Rename" || name == "os.OpenFile") && renamed[strings.Join(c, "|")] {
+				ok = true
+			}
+			r.add("R13.12", "status-file-only|"+fnDisplay(fn)+"|"+name, p.ipos(cs.In), fmt.Sprintf("%s in %s works on <basedir>/status/<device> (path constants %q)", name, fnDisplay(fn), c), ok,
+				"package status reads or writes another file than the device's status file")
+		}
+	}
+	r.floor("R13.12", "file operations of package status", n, 2)
 }
